@@ -73,6 +73,7 @@ func init() {
 			&vexplore.Scenario{Name: "survey-device-chain-1", Mode: "sched", Bound: b, Reset: kit.ResetGlobals, Body: surveyChain},
 			&vexplore.Scenario{Name: "survey-device-chain-2-two-surveyors", Mode: "sched", Bound: b, Reset: kit.ResetGlobals, Body: surveyChain2},
 			&vexplore.Scenario{Name: "pair1-device-chain-1", Mode: "sched", Bound: b, Reset: kit.ResetGlobals, Body: pair1Chain},
+			&vexplore.Scenario{Name: "xreq-back-end-server-leaves-while-idle", Mode: "sched", Bound: b, Reset: kit.ResetGlobals, Body: xreqServerLeaves},
 			&vexplore.Scenario{Name: "pair1-device-chain-ttl-is-each-receivers-own", Mode: "enum", Reset: kit.ResetGlobals, Body: pair1ChainTTL, NeedCounters: []string{"pair1-delivered-through-devices-with-a-lower-ttl", "pair1-dropped-by-a-device"}},
 			&vexplore.Scenario{Name: "star-device-forwarder-ttl-is-the-receivers", Mode: "enum", Reset: kit.ResetGlobals, Body: starDeviceTTL, NeedCounters: []string{"star-forwarded-by-device"}},
 			&vexplore.Scenario{Name: "reqrep-device-ttl-exact", Mode: "enum", Reset: kit.ResetGlobals, Body: deviceTTL},
@@ -515,6 +516,61 @@ func pair1Chain() {
 			_ = s.Close()
 		}
 	})
+}
+
+// xreqServerLeaves: the back end of a REQ/REP device is a raw REQ socket with 2-3 servers.  One or
+// two of them leave while nothing is in flight; the clients' traffic goes on.  Every request the
+// device forwards afterwards is handed, exactly once and unchanged, to a server that is still
+// there - a connection that has gone takes nothing with it.
+func xreqServerLeaves() {
+	np := 2 + kit.ChooseFree(2)
+	leave := 1 + kit.ChooseFree(np-1)
+	first := kit.ChooseFree(np)
+	s, err := xreq.NewSocket()
+	must(err, "NewSocket")
+	ep := vt.Get("c09xr")
+	must(s.Listen("vt://c09xr"), "Listen")
+	var pipes []*vt.Pipe
+	for i := 0; i < np; i++ {
+		pipes = append(pipes, ep.Connect())
+		kit.Quiesce()
+	}
+	send := func(i int) {
+		m := mangos.NewMessage(16)
+		m.Header = append(m.Header, 0, 0, 0, 7, 0x80, 0, 0, byte(i))
+		m.Body = append(m.Body, fmt.Sprintf("req-%d", i)...)
+		c := kit.Start("SendMsg", func() (interface{}, error) { return nil, s.SendMsg(m) })
+		kit.Quiesce()
+		if !c.Done() || c.Err != nil {
+			kit.Failf("send-stuck", "raw REQ SendMsg %d with %d live server(s): done=%v %s", i, np-leave, c.Done(), kit.ErrName(c.Err))
+		}
+	}
+	send(0)
+	for k := 0; k < leave; k++ {
+		pipes[(first+k)%np].DropNow()
+	}
+	kit.Quiesce()
+	n := 4
+	for i := 1; i <= n; i++ {
+		send(i)
+	}
+	seen := map[string]int{}
+	for pi, p := range pipes {
+		for _, sm := range p.SentLog() {
+			b := string(sm.Data[8:])
+			seen[b]++
+			if !p.Alive() && b != "req-0" {
+				kit.Failf("request-given-to-a-departed-server", "request %q was handed to connection %d, which had gone before the request was made", b, pi)
+			}
+		}
+	}
+	for i := 0; i <= n; i++ {
+		if c := seen[fmt.Sprintf("req-%d", i)]; c != 1 {
+			kit.Failf("request-lost-after-a-server-left", "raw REQ with %d servers of which %d left while idle: request %d was transmitted %d times (want once, to a server that is still there); transmitted: %v", np, leave, i, c, seen)
+		}
+	}
+	kit.Observe("np=%d leave=%d", np, leave)
+	kit.Must("Close", func() { _ = s.Close() })
 }
 
 // pair1ChainTTL: two cooked PAIR1 sockets joined by n = 1..4 devices whose raw sockets have a hop
